@@ -719,6 +719,13 @@ def validate_parallel(ctx, recs, jobs=8):
 
 # ---------------------------------------------------------------- entry point
 def report_bad(ctx, b):
+    """one violation per (class, kind, operator, form family, refusal reason); further instances are only counted"""
+    key = (b['class'], b['kind'], b.get('op', ''), str(b.get('form', b.get('call'))).split('/')[0], b['allowed'])
+    seen = ctx.extra.setdefault('violation_instances', {})
+    name = ' '.join(str(k) for k in key)
+    seen[name] = seen.get(name, 0) + 1
+    if seen[name] > 1:
+        return
     what = '%s via %s (negative powers %s): spec allows %s, code: %s [%s]' % (
         b.get('formula', b.get('hist')), b.get('form', b.get('call')), 'on' if b.get('neg_powers', True) else 'off',
         b['allowed'], b['observed'], b['class'])
